@@ -57,6 +57,9 @@ pub enum Closer {
     StopDrainKill,
     /// drain first, then (one task) stop: the stop request outranks the backlog that is being drained
     DrainThenStop,
+    /// two tasks call kill() / stop() at the same time: as soon as EITHER call has returned the request holds
+    TwoKillers,
+    TwoStoppers,
 }
 
 #[derive(Clone, Debug)]
@@ -315,6 +318,19 @@ pub async fn run_scenario(sc: Sc) -> Run {
             ("drain", vsched::ret_stamp())
         }));
     }
+    if matches!(sc.closer, Closer::TwoKillers | Closer::TwoStoppers) {
+        let a1 = a_ref.clone();
+        let kill = sc.closer == Closer::TwoKillers;
+        extra_closers.push(vsched::spawn("closer", async move {
+            if kill {
+                a1.kill();
+                ("kill", vsched::ret_stamp())
+            } else {
+                a1.stop(Some("second".into()));
+                ("stop", vsched::ret_stamp())
+            }
+        }));
+    }
     let a = a_ref.clone();
     let closer_kind = sc.closer.clone();
     let closer = vsched::spawn("closer", async move {
@@ -334,9 +350,13 @@ pub async fn run_scenario(sc: Sc) -> Run {
                 a.stop(reason.map(|s| s.to_string()));
                 ("stop", vsched::ret_stamp())
             }
-            Closer::Kill => {
+            Closer::Kill | Closer::TwoKillers => {
                 a.kill();
                 ("kill", vsched::ret_stamp())
+            }
+            Closer::TwoStoppers => {
+                a.stop(Some("first".into()));
+                ("stop", vsched::ret_stamp())
             }
             Closer::Drain => {
                 let _ = a.drain();
@@ -379,15 +399,17 @@ pub async fn run_scenario(sc: Sc) -> Run {
         if let Some((what, ret)) = x.await {
             match what {
                 "stop" => run.stop_ret = Some(ret),
+                "kill" => run.kill_ret = Some(ret),
                 "drain" => run.drain_ret = Some(ret),
                 _ => {}
             }
         }
     }
     if let Some((what, ret)) = closer.await {
+        // (with two requesters of the same kind the earlier return counts)
         match what {
-            "stop" => run.stop_ret = Some(ret),
-            "kill" => run.kill_ret = Some(ret),
+            "stop" => run.stop_ret = Some(run.stop_ret.map_or(ret, |r| r.min(ret))),
+            "kill" => run.kill_ret = Some(run.kill_ret.map_or(ret, |r| r.min(ret))),
             "drain" => run.drain_ret = Some(ret),
             _ => {}
         }
